@@ -425,6 +425,45 @@ def part_convert(ctx, shard):
                         tol = 256 * float(np.finfo(target_dtype(dt) if d.kind in "iu" else d).eps)
                         if got.shape != want.shape or np.any(np.abs(got - want) > tol * np.abs(want)):
                             ctx.violation(f"C17|equivalence-sound_speed|route={rname}|dtype={kcls(dt)}|mode=wrong-value", case, want.tolist(), got.tolist())
+        # effective_temperature: temperature -> flux takes the fourth power; lorentz: gamma -> velocity squares gamma
+        if d.kind in "iuf" and d.itemsize >= 4:
+            SIGMA = 5.670373e-8
+            import unyt.physical_constants as _pc2
+
+            SIGMA = float(_pc2.stefan_boltzmann_constant_mks.d)
+            for eqname, src_u, tgt_u, vlists, ref in (
+                ("effective_temperature", "K", "W/m**2", ([100000, 60000, 5772], [55109, 300, 46341]), lambda v: SIGMA * v**4),
+                ("effective_temperature-mK", "mK", "W/m**2", ([300000, 5772000, 100000],), lambda v: SIGMA * (v * 1e-3) ** 4),
+                ("lorentz-gamma", "dimensionless", "m/s", ([1000, 200, 46341], [65536, 3, 100000]), lambda v: 299792458.0 * np.sqrt(1.0 - 1.0 / v**2)),
+            ):
+                for vlist in vlists:
+                    if d.kind in "iu" and max(vlist) > np.iinfo(d).max:
+                        continue
+                    for rname in ("to_equivalent", "to(equivalence=)", "to_value", "convert_to_equivalent", "scalar-to_equivalent"):
+                        ctx.count("evaluations")
+                        q = unyt_array(np.array(vlist, dtype=dt), src_u)
+                        eq = eqname.split("-")[0]
+                        if rname == "to_equivalent":
+                            st, r, _w = run_call(lambda: q.to_equivalent(tgt_u, eq))
+                        elif rname == "to(equivalence=)":
+                            st, r, _w = run_call(lambda: q.to(tgt_u, equivalence=eq))
+                        elif rname == "to_value":
+                            st, r, _w = run_call(lambda: unyt_array(q.to_value(tgt_u, equivalence=eq), tgt_u))
+                        elif rname == "scalar-to_equivalent":
+                            st, r, _w = run_call(lambda: unyt_array([float(q[0].to_equivalent(tgt_u, eq).d), float(q[1].to_equivalent(tgt_u, eq).d), float(q[2].to_equivalent(tgt_u, eq).d)], tgt_u))
+                        else:
+                            st, r, _w = run_call(lambda: q.convert_to_equivalent(tgt_u, eq))
+                            r = q
+                        case = {"part": "convert", "dtype": dt, "route": rname, "from": src_u, "to": tgt_u, "form": "array", "values": [str(v) for v in vlist], "equivalence": eqname}
+                        if st == "raise":
+                            ctx.count("equivalence_refused")
+                            continue
+                        ctx.decided((eqname, rname, dt, tuple(vlist)))
+                        want = ref(np.array(vlist, dtype=float))
+                        got = np.asarray(r.d, dtype=float)
+                        tol = 256 * float(np.finfo(target_dtype(dt) if d.kind in "iu" else d).eps)
+                        if got.shape != want.shape or not np.all(np.abs(got - want) <= tol * np.abs(want)):
+                            ctx.violation(f"C17|equivalence-{eqname}|route={rname}|dtype={kcls(dt)}|mode=wrong-value", case, want.tolist(), got.tolist())
         for form, vals in groups:
             if d.kind == "c":
                 continue
